@@ -2,63 +2,98 @@ package app
 
 // C02 — no value creation (handler level, through the real txDeliverer).
 
-import (
-	"math/big"
+import sv "github.com/Oneledger/protocol/zz_sv"
 
-	"github.com/Oneledger/protocol/action"
-	"github.com/Oneledger/protocol/action/transfer"
-	"github.com/Oneledger/protocol/data/balance"
-	sv "github.com/Oneledger/protocol/zz_sv"
-)
-
-var svCurrencyNames = []string{"OLT", "ETH", "XXX", ""}
+var _ = sv.Tier
 
 // SV_C02_send: one SEND delivered in a block, from an arbitrary funded state.
 //
-// sv:bounds parties A,B,C (A signs); sender/recipient roles any of them; amount any integer (negative, zero, > 2^63); amount currency in {OLT, ETH, unregistered, empty}; fee price any integer, fee gas any int64; balances of all parties and the fee pool arbitrary >= 0
-// sv:outside sequences of transactions (one inductive step); more than 3 parties
-// sv:goal total OLT over all holders does not increase; no stored amount becomes negative; on a non-zero code nothing changes
+// sv:bounds parties A,B (A signs); sender/recipient roles any of them; amount any integer (negative, zero, > 2^63) in {OLT, ETH, unregistered, empty currency}; fee price any integer, fee gas any int64; OLT/ETH balances of all parties, pools and the fee pool arbitrary >= 0; mempool-admitted regime (the real Validate accepted the transaction on the same committed state)
+// sv:outside sequences of transactions (one inductive step); more than 2 parties; transactions delivered without having passed Validate (C04 obligation D)
+// sv:goal per currency the ledger total does not increase; no stored amount is negative
 func SV_C02_send() {
-	app := svNewApp()
-	svGenesis(app, svDefaultState())
-	svInstallIndexer()
-	n := 3
-	var before []*big.Int
-	for i := 0; i < n; i++ {
-		b := svNonNeg("bal" + string(rune('A'+i)))
-		before = append(before, b)
-		svFundOLT(app, svParty_(i).Addr, b)
-	}
-	svCommitBlock(app)
-	svOpenBlock(app, 2)
-	pool0 := svFeePool(app)
+	e := svNewEnv(2, 2, nil)
+	e.step(svBuildSend(e), []int{0}, true).goalsC02(nil)
+}
 
-	from := sv.Choice("from", n)
-	to := sv.Choice("to", n)
-	cur := svCurrencyNames[sv.Choice("currency", len(svCurrencyNames))]
-	amt := sv.BigInt("amount")
-	msg := transfer.Send{From: svParty_(from).Addr, To: svParty_(to).Addr,
-		Amount: action.Amount{Currency: cur, Value: *balance.NewAmountFromBigInt(amt)}}
-	data, _ := msg.Marshal()
-	raw := action.RawTx{Type: action.SEND, Data: data, Fee: svFee("OLT"), Memo: "m"}
-	tx := svSign(raw, 0)
+// SV_C02_sendpool: one SENDPOOL.
+//
+// sv:bounds as SV_C02_send; pool name in {DelegationPool, RewardsPool, BountyPool, FeePool, unknown}
+// sv:goal per currency the ledger total does not increase; no stored amount is negative
+func SV_C02_sendpool() {
+	e := svNewEnv(2, 2, nil)
+	e.step(svBuildSendPool(e), []int{0}, true).goalsC02(nil)
+}
 
-	resp := svDeliver(app, tx)
+// SV_C02_stake / unstake / stake_withdraw: the staking kinds.
+//
+// sv:bounds parties A,B,C; B may be a validator with stake address A; delegators A and C with arbitrary locked / withdrawable / maturing amounts (whole OLT, heights now and now+10); payload addresses any parties, signed by the parties it names; amount any integer in any currency name; mempool-admitted regime
+// sv:outside sequences; the allegation/freeze records (fresh evidence store)
+// sv:goal per currency the ledger total (balances, fee pool, locked, maturing and withdrawable stake at 10^18 per whole OLT) does not increase; no stored amount is negative
+func SV_C02_stake() {
+	e := svNewEnv(3, 20, svPreStaking)
+	raw, signers := svBuildStake(e)
+	e.step(raw, signers, true).goalsC02(nil)
+}
 
-	total0, total1 := new(big.Int).Set(pool0), new(big.Int).Set(svFeePool(app))
-	for i := 0; i < n; i++ {
-		after := svBalOLT(app, svParty_(i).Addr)
-		total0.Add(total0, before[i])
-		total1.Add(total1, after)
-		sv.Assert(after.Sign() >= 0, "no-negative-balance")
-		if resp.Code != 0 {
-			sv.Assert(after.Cmp(before[i]) == 0, "failed-tx-changes-nothing")
-		}
-		sv.Observe("after"+string(rune('A'+i)), after)
-	}
-	sv.Assert(svFeePool(app).Sign() >= 0, "no-negative-feepool")
-	sv.Assert(total1.Cmp(total0) <= 0, "no-value-created")
-	sv.Cover(resp.Code == 0, "delivered-ok")
-	sv.Cover(resp.Code != 0, "delivered-fail")
-	sv.Observe("code", resp.Code)
+// SV_C02_unstake — see SV_C02_stake.
+//
+// sv:bounds as SV_C02_stake
+// sv:goal as SV_C02_stake
+func SV_C02_unstake() {
+	e := svNewEnv(3, 20, svPreStaking)
+	raw, signers := svBuildUnstake(e)
+	e.step(raw, signers, true).goalsC02(nil)
+}
+
+// SV_C02_stake_withdraw — see SV_C02_stake.
+//
+// sv:bounds as SV_C02_stake
+// sv:goal as SV_C02_stake
+func SV_C02_stake_withdraw() {
+	e := svNewEnv(3, 20, svPreStaking)
+	raw, signers := svBuildStakeWithdraw(e)
+	e.step(raw, signers, true).goalsC02(nil)
+}
+
+// SV_C02_delegate / undelegate / deleg_withdraw / deleg_reinvest: the network
+// delegation kinds.
+//
+// sv:bounds parties A,B; each with arbitrary active delegation, pending undelegations and pending reward withdrawals at heights {now, now+4}, arbitrary reward balance; delegation pool >= sum of active amounts; payload names any party and that party signs; amount any integer in any currency name; mempool-admitted regime
+// sv:outside sequences
+// sv:goal per currency the ledger total (balances, pools, fee pool, active/pending delegation, reward balance and pending reward withdrawals) does not increase; no stored amount is negative
+func SV_C02_delegate() {
+	e := svNewEnv(2, 20, svPreDeleg)
+	raw, signers := svBuildDelegate(e)
+	e.step(raw, signers, true).goalsC02(nil)
+}
+
+// SV_C02_undelegate — see SV_C02_delegate.
+//
+// sv:bounds as SV_C02_delegate
+// sv:goal as SV_C02_delegate
+func SV_C02_undelegate() {
+	e := svNewEnv(2, 20, svPreDeleg)
+	raw, signers := svBuildUndelegate(e)
+	e.step(raw, signers, true).goalsC02(nil)
+}
+
+// SV_C02_deleg_withdraw — see SV_C02_delegate.
+//
+// sv:bounds as SV_C02_delegate
+// sv:goal as SV_C02_delegate
+func SV_C02_deleg_withdraw() {
+	e := svNewEnv(2, 20, svPreDeleg)
+	raw, signers := svBuildDelegWithdraw(e)
+	e.step(raw, signers, true).goalsC02(nil)
+}
+
+// SV_C02_deleg_reinvest — see SV_C02_delegate.
+//
+// sv:bounds as SV_C02_delegate
+// sv:goal as SV_C02_delegate
+func SV_C02_deleg_reinvest() {
+	e := svNewEnv(2, 20, svPreDeleg)
+	raw, signers := svBuildDelegReinvest(e)
+	e.step(raw, signers, true).goalsC02(nil)
 }
